@@ -54,22 +54,29 @@ class Ctx:
             raise Broken("build of /repo failed (%s,%s)\n%s\n%s" % (variant, config, r.stderr[-2000:], log))
         return out
 
-    def harness(self, bdir, variant="plain", wraps=(), extra=(), name="xrl_drive", cxx=False, libs=()):
-        """compile harness/*.c against the objects built from /repo; returns the executable"""
+    WRAPS = ("malloc", "calloc", "realloc", "free", "strdup", "strndup", "vasprintf", "fopen", "fclose", "setlocale",
+             "xrl_set_error", "xrl_set_error_literal", "xrl_propagate_error")
+
+    def harness(self, bdir, variant="plain", extra=(), name="xrl_drive", libs=()):
+        """compile harness/*.c (+ the generated API table) against the objects built from /repo; returns the executable"""
         cflags = open(os.path.join(bdir, "cflags")).read().split()[1:]
-        srcs = sorted(p for p in os.listdir(os.path.join(VERIF, "harness")) if p.endswith(".c"))
+        hd = os.path.join(VERIF, "harness")
+        srcs = sorted(p for p in os.listdir(hd) if p.endswith(".c"))
         h = hashlib.sha256()
-        for p in srcs + sorted(x for x in os.listdir(os.path.join(VERIF, "harness")) if x.endswith((".h", ".cpp"))):
-            h.update(open(os.path.join(VERIF, "harness", p), "rb").read())
-        h.update(repr((wraps, extra, cxx, libs)).encode())
+        for p in sorted(os.listdir(hd)):
+            if p.endswith((".c", ".h", ".py", ".cpp")): h.update(open(os.path.join(hd, p), "rb").read())
+        h.update(repr((extra, libs, self.WRAPS)).encode())
         exe = os.path.join(bdir, "%s-%s" % (name, h.hexdigest()[:12]))
         if os.path.exists(exe):
             return exe
-        cmd = ["gcc"] + cflags + ["-I" + os.path.join(VERIF, "harness"), "-Wno-deprecated-declarations"]
-        cmd += [os.path.join(VERIF, "harness", s) for s in srcs] + list(extra)
+        fd = os.path.join(bdir, "apifacts")
+        sh(["python3", os.path.join(VERIF, "facts", "lex.py"), REPO, REPO, fd, "protos"])
+        gen = os.path.join(bdir, "gen_api.c")
+        sh(["python3", os.path.join(hd, "gen_api.py"), os.path.join(fd, "protos.json"), gen])
+        cmd = ["gcc"] + cflags + ["-I" + hd, "-Wno-deprecated-declarations"]
+        cmd += [os.path.join(hd, s) for s in srcs] + [gen] + list(extra)
         cmd += [os.path.join(bdir, "libxrl.a"), "-lm", "-lpthread"] + list(libs)
-        if wraps:
-            cmd += ["-Wl," + ",".join("--wrap=" + w for w in wraps)]
+        cmd += ["-Wl," + ",".join("--wrap=" + w for w in self.WRAPS)]
         cmd += ["-o", exe + ".tmp"]
         sh(cmd)
         os.replace(exe + ".tmp", exe)
